@@ -24,7 +24,7 @@ SITES = [
     ('qr_get_scu', 0x0001, 'asce.receive()[0]', 'asce.receive()[1]'),
 ]
 # PS3.4 J.3: the Storage Commitment Push Model SOP instance is the well-known instance for conformant requests
-WELL_KNOWN_INSTANCE_OK = {('StorageCommitment.n_action', 'affected_sop_instance_uid'): 'STORAGE_COMMITMENT_PUSH_MODEL_SOP_CLASS'}
+WELL_KNOWN_INSTANCE_OK = {('StorageCommitment.n_action', 'affected_sop_instance_uid'): "'1.2.840.10008.1.20.1.1'"}   # PS3.4 J.3.5 well-known instance
 
 
 def run(repo, rep):
